@@ -323,7 +323,7 @@ def _n(v):
 
 # operand classes: empty, 00, 80 (negative zero), 1..5-byte numbers minimal and non-minimal, negative zero of several
 # widths, 6 bytes, 520/521-byte items
-VALS = [b"", b"\x00", b"\x80", b"\x01", b"\x81", b"\x02", b"\x03", b"\x04", b"\x10", b"\x11", b"\x7f", b"\xff",
+VALS = [b"", b"\x00", b"\x80", b"\x01", b"\x81", b"\x02", b"\x03", b"\x04", b"\x05", b"\x06", b"\x64", b"\x65", b"\x10", b"\x11", b"\x7f", b"\xff",
         _n(128), _n(32767), _n(255), _n(-255), b"\x01\x00", b"\x00\x80", b"\x00\x00",
         _n(65536), b"\x01\x00\x00",
         _n(2 ** 31 - 1), _n(-(2 ** 31 - 1)), b"\x02\x00\x00\x00", b"\x00\x00\x00\x80",
@@ -416,7 +416,7 @@ class SynthChecker(cs.TransactionChecker):
 
 
 CTX_DEFAULT = _Ctx()
-CTX_LOCKED = _Ctx(sequence=5, lock_time=100, version=2)
+CTX_LOCKED = _Ctx(sequence=5, lock_time=100, version=2)      # VALS holds 4,5,6 and 100,101: both sides of each comparison
 CHK_DEFAULT = SynthChecker(CTX_DEFAULT)
 CHK_LOCKED = SynthChecker(CTX_LOCKED)
 
@@ -504,11 +504,12 @@ class Sweep(object):
             _short(script, 40), meta.get("desc", ""), _stk(stack), _flag_names(flags),
             "WITNESS_V0" if sigversion else "BASE", ctx.sequence, ctx.lock_time, ctx.version)
         repro = None
-        if len(script) <= 600 and sum(len(x) for x in stack) <= 1200 and cat != "sig":
-            repro = ("import sys; sys.path.insert(0,'/repo')\n"
+        if len(script) <= 600 and sum(len(x) for x in stack) <= 1200:
+            repro = ("import sys, hashlib; sys.path.insert(0,'/repo')\n"
                      "from pycoin.coins.bitcoin.VM import BitcoinVM\n"
                      "class C: sequence=%d; lock_time=%d; version=%d\n"
-                     "vm = BitcoinVM(bytes.fromhex('%s'), C(), lambda *a: 1, %d, initial_stack=[bytes.fromhex(x) for x in %r])\n"
+                     "sighash = lambda ht, blobs, vm: int.from_bytes(hashlib.sha256(b'C03-synth' + bytes([ht & 255]) + vm.script[vm.begin_code_hash:]).digest(), 'big')\n"
+                     "vm = BitcoinVM(bytes.fromhex('%s'), C(), sighash, %d, initial_stack=[bytes.fromhex(x) for x in %r])\n"
                      "print(vm.eval_script())   # Core: %s%s"
                      % (ctx.sequence, ctx.lock_time, ctx.version, _hx(script), pflags, [_hx(x) for x in stack], s_err,
                         " with stack %r" % [_hx(x) for x in s_stack] if s_ok else ""))
